@@ -251,6 +251,9 @@ impl TDigestMut {
         for &c in &other.centroids {
             tmp.push(c);
         }
+        // the extremes of `other` need not be centroid means (a decoded image may carry heavy end centroids)
+        self.min = self.min.min(other.min);
+        self.max = self.max.max(other.max);
         self.do_merge(tmp, self.buffer.len() as u64 + other.total_weight())
     }
 
